@@ -191,11 +191,17 @@ func vpH_C08_maps() {
 		}
 		vpAssume(!vpMapEq(t1.Env, t2.Env))
 		a1, a2 = vpMapAtoms(t1.Env), vpMapAtoms(t2.Env)
-	case 1: // entry points
+	case 1: // entry points (AddEntryPoint refuses a name twice: a precondition, not a finding)
 		for i := range k1 {
+			for j := 0; j < i; j++ {
+				vpAssume(k1[i] != k1[j])
+			}
 			t1.AddEntryPoint(k1[i], x1[i])
 		}
 		for i := range k2 {
+			for j := 0; j < i; j++ {
+				vpAssume(k2[i] != k2[j])
+			}
 			t2.AddEntryPoint(k2[i], x2[i])
 		}
 		vpAssume(!vpMapEq(t1.EntryPoints, t2.EntryPoints))
